@@ -4,11 +4,16 @@
 
 use crate::credential::softlock::{CredSoftLock, CredSoftLockPolicy};
 use crate::credential::totp::Totp;
-use crate::credential::Credential;
+use crate::credential::{BackupCodes, Credential, CredentialType};
 use crate::idm::event::UnixUserAuthEvent;
 use crate::idm::server::IdmServerAuthTransaction;
 use crate::prelude::*;
 use time::OffsetDateTime;
+use webauthn_rs::prelude::{Passkey, SecurityKey};
+use webauthn_rs_core::proto::{
+    COSEAlgorithm, COSEEC2Key, COSEKey, COSEKeyType, Credential as WebauthnCredential,
+    CredentialV3, ECDSACurve, UserVerificationPolicy,
+};
 
 /// (kind, count, reset_at, unlock_at, last_expire_at); kind 0 = Init, 1 = Locked, 2 = Unlocked.
 pub type HookLockState = (u8, usize, Duration, Duration, Duration);
@@ -93,4 +98,73 @@ pub fn unix_auth_event(target: Uuid, cleartext: &str) -> UnixUserAuthEvent {
 pub fn cred_new_password(cleartext: &str) -> Credential {
     let p = kanidm_lib_crypto::CryptoPolicy::minimum();
     Credential::new_password_only(&p, cleartext, OffsetDateTime::UNIX_EPOCH).expect("credential")
+}
+
+/// The shape of a credential: which factors it offers.
+#[derive(Debug, Clone)]
+pub enum CredShape {
+    Password,
+    GeneratedPassword,
+    /// password + TOTPs (label, totp) + number of security keys + backup codes present?
+    PasswordMfa {
+        totps: Vec<(String, Totp)>,
+        security_keys: usize,
+        backup_codes: bool,
+    },
+    /// number of passkeys
+    Passkey(usize),
+}
+
+fn fixture_webauthn(n: usize) -> WebauthnCredential {
+    // a syntactically valid ES256 credential (never used to authenticate)
+    WebauthnCredential::from(CredentialV3 {
+        cred_id: vec![0xc2, 0x8c, n as u8, 1, 2, 3, 4, 5, 6, 7, 8, 9, 10, 11, 12, 13],
+        cred: COSEKey {
+            type_: COSEAlgorithm::ES256,
+            key: COSEKeyType::EC_EC2(COSEEC2Key {
+                curve: ECDSACurve::SECP256R1,
+                x: vec![n as u8 + 1; 32].into(),
+                y: vec![n as u8 + 2; 32].into(),
+            }),
+        },
+        counter: 0,
+        verified: false,
+        registration_policy: UserVerificationPolicy::Preferred,
+    })
+}
+
+/// A credential of the given shape (password hashed with the cheapest parameters).
+pub fn cred_of_shape(shape: &CredShape, cleartext: &str) -> Credential {
+    let pw = cred_new_password(cleartext)
+        .password_ref()
+        .expect("password")
+        .clone();
+    let type_ = match shape {
+        CredShape::Password => CredentialType::Password(pw),
+        CredShape::GeneratedPassword => CredentialType::GeneratedPassword(pw),
+        CredShape::PasswordMfa {
+            totps,
+            security_keys,
+            backup_codes,
+        } => CredentialType::PasswordMfa(
+            pw,
+            totps.iter().cloned().collect(),
+            (0..*security_keys)
+                .map(|n| (format!("sk{n}"), SecurityKey::from(fixture_webauthn(n))))
+                .collect(),
+            if *backup_codes {
+                Some(BackupCodes::new(
+                    ["c28backupcode1".to_string()].into_iter().collect(),
+                ))
+            } else {
+                None
+            },
+        ),
+        CredShape::Passkey(n) => CredentialType::Webauthn(
+            (0..*n)
+                .map(|n| (format!("pk{n}"), Passkey::from(fixture_webauthn(n))))
+                .collect(),
+        ),
+    };
+    Credential::verif_from_type(type_)
 }
